@@ -38,6 +38,11 @@ impl Cfg {
     }
 }
 
+/// C13's clause "compact() never makes the file larger" is judged only by the C13 check (other
+/// checks also run compact() as a step; the same violation there would be reported under the
+/// wrong property)
+pub static COMPACT_GROWTH_ORACLE: std::sync::atomic::AtomicBool = std::sync::atomic::AtomicBool::new(false);
+
 pub const CFG_SMALL: Cfg = Cfg::new(512, Some(32 * 1024), 0);
 
 struct Reader {
@@ -1618,7 +1623,7 @@ impl Interp {
                 self.last_commit_durable = true;
                 self.durable_cp = self.cps.len() - 1;
                 let after_len = self.backend.lock().data.len();
-                if after_len > before_len {
+                if after_len > before_len && COMPACT_GROWTH_ORACLE.load(std::sync::atomic::Ordering::Relaxed) {
                     let free = total_before.saturating_sub(alloc_before);
                     // two classes, so that a known finding about full files cannot hide growth of
                     // a file that had room to compact into
